@@ -81,10 +81,17 @@ def analyse_scan_k(prog, rep, kern, entry, k, O, mode, earlier, data=None, listp
     inner = [L for L in k.loops if L is not O and L.node in [x for s in O.node.body for x in ast.walk(s)] and
              not any(L.node in [x for s2 in M.node.body for x in ast.walk(s2)] for M in k.loops if M is not O and M is not L and
                      M.node in [x for s in O.node.body for x in ast.walk(s)])]
+    local = False
+    if len(bounds) == 1 and not flags and len(inner) == 1:
+        # a flag of the line alone: cleared for every line before the line loop, tested after it (it never has to survive
+        # to the next line, because the scan is left as soon as it is set)
+        flags = [n for n in getattr(inner[0], 'carried', {}) if inner[0].pre.get(n) in (('const', False), Rat.const(0)) and
+                 n not in getattr(O, 'carried', {})]
+        local = True
     if len(bounds) != 1 or len(flags) != 1 or len(inner) != 1:
         raise _Unrecognised('bound %s, flag %s, %d line loops' % (bounds, flags, len(inner)))
     bound, flag, X = bounds[0], flags[0], inner[0]
-    fphi = O.carried[flag][0]
+    fphi = O.carried[flag][0] if not local else None
     # ---- T2-stop: once a kept cell was found no later line changes the bound
     fend = O.end_env.get(flag)
     lo_atoms = [a for a in (walk_atoms(fend[1]) if isinstance(fend, tuple) and fend[0] == 'truth' else set())
@@ -92,7 +99,7 @@ def analyse_scan_k(prog, rep, kern, entry, k, O, mode, earlier, data=None, listp
     stops = []
     for g, envb, nb in O.breaks:
         try:
-            head = [eval_cond_full(x, {next(iter(fphi.atoms())): Fr(v)}) for v in (1, 0) for x in g] if len(g) == 1 else None
+            head = [eval_cond_full(x, {next(iter(fphi.atoms())): Fr(v)}) for v in (1, 0) for x in g] if len(g) == 1 and not local else None
         except CannotEvaluate:
             head = None
         if head == [True, False] and envb.get(bound) != ov:
@@ -106,7 +113,7 @@ def analyse_scan_k(prog, rep, kern, entry, k, O, mode, earlier, data=None, listp
             stops.append('tail')
             continue
         stops.append('other: %s' % [cond_repr(x)[:60] for x in g])
-    through = isinstance(X.pre.get(flag), tuple) and X.pre.get(flag) == ('truth', fphi) and isinstance(fend, tuple) and \
+    through = (local or (isinstance(X.pre.get(flag), tuple) and X.pre.get(flag) == ('truth', fphi))) and isinstance(fend, tuple) and \
         len(lo_atoms) == 1 and lo_atoms[0].args[1] == Rat.sym(X.var)
     ok = bool(stops) and all(s in ('head', 'tail') for s in stops) and through
     rep.add('T2-stop', kern, entry, site, O.node.lineno, ok,
@@ -547,6 +554,10 @@ def analyse(prog, rep, pubname, mode):
     if w.kcall is None:
         raise AnalysisIncomplete('%s: scan kernel call not found' % pubname)
     kcall_node, kern, kargs = w.kcall
+    # a kernel that first classifies every cell into a boolean scratch array and then scans that array is read as the scan
+    # over the classification itself (maskview.py; exact or not done at all)
+    from ..maskview import unmask_view
+    kern = unmask_view(prog, kern)
     entry = pubname
     # parameter roles from what the kernel does with them: the raster is the one indexed [row, col] / asked for its shape,
     # the list is the other one
@@ -574,11 +585,12 @@ def analyse(prog, rep, pubname, mode):
         ext = {}
     loops = [s for s in kern.node.body if isinstance(s, ast.For)]
     results = []
+    unread = []
     earlier = {}
     from ..kai import interpret
     try:
         # phases of a split kernel (row scans / column scans in functions of their own) are executed in place
-        kk = interpret(prog, kern, strict=False, inline_all=lambda g_: g_.jit is not None and g_.module is kern.module)
+        kk = interpret(prog, kern, strict=False, inline_all=lambda g_: g_.jit is not None and prog.same_unit(kern.module, g_.module))
     except AnalysisIncomplete:
         kk = None
     ktops = []
@@ -604,12 +616,22 @@ def analyse(prog, rep, pubname, mode):
                 del rep.obs[mark:]          # not a shape the interpreted rule models: the syntactic rule decides
                 r = None
         if r is None:
+            mark = len(rep.obs)
             r = analyse_scan(prog, rep, kern, entry, lp, ext, data, listparam, mode, dict(earlier))
+            if O is not None:
+                # the syntactic rule knows one arrangement of a scan; on a loop the interpreter did read but the semantic rule
+                # does not model, its "not that arrangement" is no refutation: the scan stays undecided
+                from ..report import REFUTED, UNDECIDED
+                for ob in rep.obs[mark:]:
+                    if ob.status == REFUTED:
+                        ob.status = UNDECIDED
+                        unread.append(lp)
         results.append(r)
         if r and r[2]:
             earlier[(r[0], r[1])] = r[2]
     got = [(r[0], r[1]) for r in results if r]
-    rep.add('T2-scan', kern, entry, 'scan directions %s' % got, kern.node.lineno, got == EXPECT or sorted(got) == sorted(EXPECT),
+    okscan = got == EXPECT or sorted(got) == sorted(EXPECT)
+    rep.add('T2-scan', kern, entry, 'scan directions %s' % got, kern.node.lineno, okscan if okscan or not unread else None,
             'exactly four scans are needed: rows ascending, rows descending, columns ascending, columns descending')
     role = {}
     for r in results:
